@@ -373,8 +373,14 @@ func checkEnvelope(data []byte, expectedType msgType) ([]byte, error) {
 		headerLen  = int(data[5])
 		flags      = data[6]
 		actualType = msgType(data[7])
-		payload    = data[headerLen:]
 	)
+
+	// The header length is read off the wire, so make sure it is sane before
+	// using it to slice the data.
+	if headerLen < envelopeMinHeaderLen || headerLen > len(data) {
+		return nil, fmt.Errorf("invalid envelope header size: %d", headerLen)
+	}
+	payload := data[headerLen:]
 
 	if actualType != expectedType {
 		return nil, fmt.Errorf("MsgType mismatch: expected %v, got %v", expectedType, actualType)
